@@ -93,6 +93,16 @@ func (s *Space) accept(raw *consensusproto.RawRecord) *consensusproto.RawRecordW
 	return rec
 }
 
+// Accept applies a record built elsewhere (e.g. by a joining account) to the authoritative list.
+func (s *Space) Accept(raw *consensusproto.RawRecord) (*consensusproto.RawRecordWithId, error) {
+	rec := Wrap(raw)
+	if err := s.Authority.AddRawRecord(rec); err != nil {
+		return nil, err
+	}
+	s.Records = append(s.Records, rec)
+	return rec, nil
+}
+
 // Add adds accounts with the given permissions (real builder; byte-deterministic).
 func (s *Space) Add(perm list.AclPermissions, accs ...*Account) *consensusproto.RawRecordWithId {
 	var adds []list.AccountAdd
